@@ -295,6 +295,8 @@ fn c05_profile(index: u64) -> Profile {
     p.timeouts = true;
     p.low_stall_threshold_bias = true;
     p.horizon_hi_ms = 16_000;
+    // a failed flush resets the link while its packets are remembered and another link holds a probe copy
+    p.send_faults = index % 3 == 2;
     p
 }
 
@@ -368,6 +370,31 @@ fn c05_post(plan: &mut LPlan, seed: u64) {
             plan.actions.push(TimedAction { t: tb + r.range(40, 400), kind: Action::Inject { link, hex: hex(&build_nak(&[seq])), delay: 0 } });
         }
         plan.horizon_ms = tb + 1_500;
+        plan.actions.sort_by_key(|a| a.t);
+    }
+    // A stall-gated link holds probe copies (one in a hundred routed packets) while the carrier's
+    // size-triggered flushes fail now and then: the carrier is reset, the receiver misses the batch
+    // and NAKs it - the only remaining holder of some of those numbers is the probe link.
+    if plan.n_links >= 2 && r.chance(0.3) {
+        let tb = plan.horizon_ms.max(4_000);
+        let gated = r.below(plan.n_links as u64) as usize;
+        plan.cfg.stall_guard = true;
+        plan.cfg.stall_min_in_flight = *r.pick(&[1, 2, 4]);
+        plan.cfg.stall_ack_stale_ms = *r.pick(&[500, 1000, 1500]);
+        plan.cfg.conn_timeout_ms = 15_000;
+        let pps = *r.pick(&[600u32, 1000, 1500]);
+        plan.actions.push(TimedAction { t: tb, kind: Action::Burst { n: pps * 9, pps, size_lo: 200, size_hi: 900, stride: 1 } });
+        plan.actions.push(TimedAction { t: tb + 400, kind: Action::Blackhole { link: gated, up: true, down: true, on: true } });
+        let mut t = tb + 2_500;
+        while t < tb + 8_500 {
+            for l in 0..plan.n_links {
+                if l != gated {
+                    plan.actions.push(TimedAction { t, kind: Action::SendFault { link: l, kind: "err:unreach".into(), count: 1, batch_only: true, send_only: false } });
+                }
+            }
+            t += r.range(300, 1_200);
+        }
+        plan.horizon_ms = tb + 11_000;
         plan.actions.sort_by_key(|a| a.t);
     }
 }
